@@ -426,6 +426,11 @@ func genBackend(t *rapid.T, c *Client, o genOpts) Backend {
 	b.Headers = genHeaderKVs(t, "resp_hdr", 2)
 	b.Trailers = genHeaderKVs(t, "resp_trl", 2)
 	b.TrailerStyle = rapid.SampledFrom([]string{"declared", "prefixed"}).Draw(t, "trailer_style")
+	b.TrailerCase = rapid.SampledFrom([]string{"", "", "lower", "mixed", "upper"}).Draw(t, "trailer_case")
+	b.CompressEnd = b.Compress && rapid.IntRange(0, 2).Draw(t, "compress_end") == 0
+	if b.Kind == "ok" {
+		b.OKMessage = rapid.SampledFrom([]string{"", "", "", "OK", "all good"}).Draw(t, "ok_message")
+	}
 	b.CloseBody = rapid.IntRange(0, 2).Draw(t, "close_body") == 0
 	if b.CloseBody {
 		b.CloseAfterWrites = rapid.IntRange(0, 2).Draw(t, "close_after_writes")
